@@ -293,6 +293,7 @@ impl<'arena, 'input: 'arena> Lexer<'arena, 'input> {
                 }
 
                 let esc = self.src[pos + 1];
+                let mut esc_len = 1;
                 match esc {
                     b'"' if quote == b'"' => buffer.push('"'),
                     b'\'' if quote == b'\'' => buffer.push('\''),
@@ -300,19 +301,24 @@ impl<'arena, 'input: 'arena> Lexer<'arena, 'input> {
                     b'n' => buffer.push('\n'),
                     b't' => buffer.push('\t'),
                     _ => {
+                        // The escaped character may be multi-byte: take all of it.
+                        // SAFETY: pos + 1 follows the ASCII backslash, so it is a boundary
+                        let rest = unsafe { str::from_utf8_unchecked(&self.src[pos + 1..self.len]) };
+                        let ch = rest.chars().next().unwrap_or(esc as char);
+                        esc_len = ch.len_utf8();
                         self.emit_error(
-                            Range::from(pos..pos + 2),
+                            Range::from(pos..pos + 1 + esc_len),
                             LexError::InvalidStringEscape,
                             vec![Label {
-                                span: Range::from(pos..pos + 2),
+                                span: Range::from(pos..pos + 1 + esc_len),
                                 message: ArenaCow::Borrowed("I no sabi dis escape character"),
                             }],
                         );
                         // Append the invalid escape character
-                        buffer.push(esc as char);
+                        buffer.push(ch);
                     }
                 }
-                self.pos = pos + 2;
+                self.pos = pos + 1 + esc_len;
             }
         }
 
